@@ -371,9 +371,19 @@ struct DocGen
 	{
 		std::string t;
 		bool isint = true;
+		if (r.chance(0.12)) {
+			// integer literals around the int32 / 9-10 digit boundaries, where a decoder switches between int and double paths
+			static const char* edge[] = {"2147483647", "2147483648", "2147483649", "2147483650", "2200000000", "2500000000", "2999999999", "3000000000", "4294967295", "4294967296",
+			                             "1999999999", "1000000000", "999999999", "9999999999", "10000000000", "2147483646", "21474836470", "214748364", "9007199254740993",
+			                             "18446744073709551615", "18446744073709551616", "123456789012345678901234567890"};
+			if (r.chance(0.5)) t += '-';
+			t += edge[r.below(sizeof(edge) / sizeof(edge[0]))];
+		}
+		else {
 		if (r.chance(0.4)) t += '-';
 		if (r.chance(0.25)) t += '0';
 		else { int n = r.chance(0.15) ? r.range(10, 25) : r.range(1, 9); t += (char)('1' + r.below(9)); for (int i = 1; i < n; i++) t += (char)('0' + r.below(10)); }
+		}
 		size_t ip = t.size();
 		size_t fp = ip;
 		if (r.chance(0.45)) { isint = false; t += '.'; int n = r.range(1, r.chance(0.2) ? 20 : 6); for (int i = 0; i < n; i++) t += (char)('0' + r.below(10)); fp = t.size(); }
@@ -388,7 +398,7 @@ struct DocGen
 		JV v;
 		double d = strtod(t.c_str(), 0);
 		if (isint && t.size() <= 9 + (t[0] == '-')) { v.k = JV::I; v.i = atoi(t.c_str()); }
-		else { v.k = JV::D; v.d = d; }
+		else { v.k = JV::D; v.d = d; }   // any other integer literal: judged by its exact numeric value
 		return v;
 	}
 	std::string ident()
